@@ -65,9 +65,9 @@ def proof_stage(pid, spec, tier, log):
     os.makedirs(os.path.join(LEAN, ".audit"), exist_ok=True)
     audit = os.path.join(LEAN, ".audit", f"{pid}.lean")
     with open(audit, "w") as fh:
-        for m in mods + ["CasModel.Proofs.WalGhost"]:
+        for m in mods + ["CasModel.Proofs.WalGhost", "CasModel.Conc"]:
             fh.write(f"import {m}\n")
-        fh.write("open CasModel CasModel.Ghost\n")
+        fh.write("open CasModel CasModel.Ghost CasModel.Conc\n")
         for t in spec["obligations"]:
             fh.write(f"#print axioms {t}\n")
     r = run(["lake", "env", "lean", audit], cwd=LEAN, timeout=1800)
@@ -77,7 +77,7 @@ def proof_stage(pid, spec, tier, log):
     text = r.stdout.replace("\n ", " ")
     for m in re.finditer(r"'([^']+)' (depends on axioms: \[([^\]]*)\]|does not depend on any axioms)", text):
         name = m.group(1)
-        for pre in ("CasModel.Ghost.", "CasModel."):
+        for pre in ("CasModel.Ghost.", "CasModel.Conc.", "CasModel."):
             if name.startswith(pre):
                 name = name[len(pre):]
                 break
